@@ -111,19 +111,32 @@ def gen_cases(seed, n):
     for i in range(n):
         kind = i % 3
         if kind == 0:
-            cases.append({"kind": "kallen", "x": str(rq(rng, -5, 5)), "y": str(rq(rng, -5, 5)),
-                          "z": str(rq(rng, -5, 5)), "a": str(rq(rng, 0, 3)), "b": str(rq(rng, 0, 3))})
+            xyz = [rq(rng, -5, 5) for _ in range(3)]
+            if rng.random() < 0.4:  # vanishing arguments (massless particles, sigma = 0) in every slot
+                for slot in rng.sample(range(3), rng.choice([1, 1, 2])):
+                    xyz[slot] = R(0)
+            ab = [rq(rng, 0, 3), rq(rng, 0, 3)]
+            if rng.random() < 0.2:
+                ab[rng.randrange(2)] = R(0)
+            cases.append({"kind": "kallen", "x": str(xyz[0]), "y": str(xyz[1]),
+                          "z": str(xyz[2]), "a": str(ab[0]), "b": str(ab[1])})
         elif kind == 1:
             P2 = [rq(rng, -2, 2) for _ in range(3)]
             P3 = [rq(rng, -2, 2) for _ in range(3)]
             if rng.random() < 0.25:  # collinear event: Kibble = 0 exactly (boundary of the region)
                 lam = rq(rng, -2, 2)
                 P3 = [lam * c for c in P2]
+            pair_massless = rng.random() < 0.12
+            if pair_massless:  # two massless particles flying collinearly: sigma_1 = 0 exactly
+                t = rq(rng, 0.05, 1)
+                P2 = [t * c for c in rng.choice([(1, 2, 2), (2, 3, 6), (0, 3, 4), (0, 0, 1)])]
+                lam = rq(rng, 0.05, 2)
+                P3 = [lam * c for c in P2]
             P1 = [-(a + b) for a, b in zip(P2, P3)]
             Es = []
             for P in (P1, P2, P3):
                 pp = sum(c * c for c in P)
-                massless = rng.random() < 0.15
+                massless = rng.random() < 0.15 or (pair_massless and P is not P1)
                 # E rational with E^2 >= |p|^2 ; massless only when |p| is rational
                 if massless and sp.sqrt(pp).is_rational:
                     Es.append(sp.sqrt(pp))
